@@ -242,14 +242,14 @@ def c04(pid, tier, seed):
 def c16(pid, tier, seed):
     q = tier == "quick"
     fams = [
-        fam("tabs_single", W=40, H=6, D=4 if q else 5, BarOps=("set_tab_width", "set_style", "set_message", "set_prefix", "finish_with_message", "tick"),
+        fam("tabs_single", conf="single", W=40, H=6, D=4 if q else 5, BarOps=("set_tab_width", "set_style", "set_message", "set_prefix", "finish_with_message", "tick"),
             MsgShapes=("tab", "tt", "a"), Tpls=("TM", "KM", "PM"), TabWs=(8, 0, 4), Fins=("AndLeave",)),
-        fam("tabs_restyle", W=40, H=6, D=4 if q else 5, BarOps=("set_tab_width", "restyle", "set_style", "set_message", "tick"),
+        fam("tabs_restyle", conf="single", W=40, H=6, D=4 if q else 5, BarOps=("set_tab_width", "restyle", "set_style", "set_message", "tick"),
             MsgShapes=("tab",), Tpls=("TM", "KC", "M"), TabWs=(8, 2), Fins=("AndLeave",)),
         # the texts given to the builder before / after the tab width (with_message, with_prefix, with_tab_width, with_style in every order)
-        fam("tabs_builder", W=40, H=6, D=3 if q else 4, BarOps=("tick", "set_tab_width", "set_message", "finish_with_message"), MsgShapes=("tab",), Tpls=("PM", "TM"),
+        fam("tabs_builder", conf="single", W=40, H=6, D=3 if q else 4, BarOps=("tick", "set_tab_width", "set_message", "finish_with_message"), MsgShapes=("tab",), Tpls=("PM", "TM"),
             TabWs=(8, 0, 1, 4), Fins=("AndLeave", "WithMessage"), M0="tab"),
-        fam("tabs_multi", W=40, H=12, Multi=True, MaxBars=2, D=4 if q else 5, BarOps=("set_tab_width", "set_style", "set_message", "abandon_with_message", "tick"),
+        fam("tabs_multi", conf="multi", W=40, H=12, Multi=True, MaxBars=2, D=4 if q else 5, BarOps=("set_tab_width", "set_style", "set_message", "abandon_with_message", "tick"),
             MsgShapes=("tab",), Tpls=("TM", "KM"), TabWs=(8, 1), Fins=("AndLeave",), shards=12),
     ]
     return screen_check(pid, tier, seed, fams,
@@ -270,9 +270,9 @@ def c19(pid, tier, seed):
                     TextShapes=("T",), Tpls=("M",), Fins=("AndLeave",), M0="id", shards=12))
     # set_move_cursor(true): no line is cleared, the frame is overwritten in place; with frames that keep their shape (here: wrapped lines of
     # constant width, only a digit changes) the screen must still be exactly the frame
-    fams.append(fam("geo_move_cursor", W=4, H=10, Multi=True, MaxBars=2, Pre=2, D=7 if q else 9, BarOps=("tick", "inc"), MpOps=("mp_set_move_cursor",),
+    fams.append(fam("geo_move_cursor", conf="multi", W=4, H=10, Multi=True, MaxBars=2, Pre=2, D=7 if q else 9, BarOps=("tick", "inc"), MpOps=("mp_set_move_cursor",),
                     Tpls=("MC",), Fins=("AndLeave",), M0="idw", DTs=(1000,), shards=8))
-    fams.append(fam("geo_multi_deep", W=3, H=4, Multi=True, MaxBars=6, D=24, BarOps=("tick", "set_message", "finish_and_clear", "mp_remove", "drop"), MpOps=("mp_println", "insert_rel"),
+    fams.append(fam("geo_multi_deep", conf="multi", W=3, H=4, Multi=True, MaxBars=6, D=24, BarOps=("tick", "set_message", "finish_and_clear", "mp_remove", "drop"), MpOps=("mp_println", "insert_rel"),
                     MsgShapes=("a", "W", "W1", "2W1"), TextShapes=("T", "TW1"), Tpls=("M",), Fins=("AndLeave", "AndClear"), M0="id", mode=("sim", 400 if q else 4000, 26), shards=12))
     return screen_check(pid, tier, seed, fams,
                         "terminal sizes from 1x1, line widths around multiples of the width, bar sets growing and shrinking past the terminal height; "
